@@ -83,9 +83,53 @@ pub struct RunStats {
     pub lin_checked: u64,
     pub lin_unchecked: u64,
     pub extra: BTreeMap<String, u64>,
+    /// (call kind, file class) of every filesystem call, in order (fault engines use it to
+    /// stratify fault positions).
+    #[serde(skip)]
+    pub call_sites: Vec<(crate::simfs::CallKind, FileClass)>,
 }
 
 impl RunStats {
+    /// Add the counters of a sub-run (fault engines execute several runs per case).
+    pub fn absorb(&mut self, o: &RunStats) {
+        self.ops += o.ops;
+        self.gets += o.gets;
+        self.scans += o.scans;
+        self.writes += o.writes;
+        self.flushes += o.flushes;
+        self.compact_ranges += o.compact_ranges;
+        self.reopens += o.reopens;
+        self.shape_checks += o.shape_checks;
+        self.dir_checks += o.dir_checks;
+        self.tables_created += o.tables_created;
+        self.table_reads += o.table_reads;
+        self.fs_calls += o.fs_calls;
+        self.mut_ops += o.mut_ops;
+        self.steps += o.steps;
+        self.switches += o.switches;
+        self.choice_points += o.choice_points;
+        self.freezes += o.freezes;
+        self.sleeps += o.sleeps;
+        self.fault_fired += o.fault_fired;
+        for (k, v) in &o.probes {
+            *self.probes.entry(k.clone()).or_insert(0) += *v;
+        }
+        for (k, v) in &o.extra {
+            *self.extra.entry(k.clone()).or_insert(0) += *v;
+        }
+        if let Some(s) = &o.fault_site {
+            *self.probes.entry(format!("fault@{}", s)).or_insert(0) += 1;
+        }
+        for s in &o.shapes {
+            if self.shapes.len() < 32 {
+                self.shapes.push(s.clone());
+            }
+        }
+        if o.max_level > self.max_level {
+            self.max_level = o.max_level;
+        }
+    }
+
     pub fn probe(&mut self, name: &str) {
         *self.probes.entry(name.to_string()).or_insert(0) += 1;
     }
@@ -259,6 +303,7 @@ where
                 detail: format!("panic in {} (task {}): {} at {}", p.thread_name, p.task, p.message, p.location),
                 seq: p.seq,
                 op_index: None,
+                fault: None,
             });
         }
     }
@@ -273,6 +318,7 @@ where
                     detail: format!("all live tasks blocked: {}", msg),
                     seq: ctx.seq,
                     op_index: None,
+                    fault: None,
                 });
             }
         } else if msg.starts_with("exceeded max_steps") {
@@ -283,6 +329,7 @@ where
                 detail: format!("run exceeded {} scheduler steps", max_steps),
                 seq: ctx.seq,
                 op_index: None,
+                fault: None,
             });
         } else if !has_panic_finding {
             // A panic that escaped a task outside any catch (harness bug or shuttle-internal
@@ -297,6 +344,7 @@ where
                 detail: format!("panic escaped the execution: {} at {}", m, l),
                 seq: ctx.seq,
                 op_index: None,
+                fault: None,
             });
         }
     }
